@@ -33,9 +33,9 @@ type c20Case struct {
 	MagBit int `json:"magbits,omitempty"`
 	Dens   int `json:"density,omitempty"` // percent non-zero
 	// dwt
-	Levels int `json:"levels,omitempty"`
-	X0     int `json:"x0,omitempty"`
-	Y0     int `json:"y0,omitempty"`
+	Levels int  `json:"levels,omitempty"`
+	X0     int  `json:"x0,omitempty"`
+	Y0     int  `json:"y0,omitempty"`
 	Even   bool `json:"even,omitempty"`
 	// shared
 	N     int    `json:"n,omitempty"`
